@@ -408,7 +408,7 @@ impl Prop for C15 {
         32
     }
     fn cases(&self, t: Tier) -> usize {
-        t.pick(80_000, 6_000_000)
+        t.pick(2_000_000, 200_000_000)
     }
     fn rule(&self) -> String {
         "tape-decoded (operation in {add, sub, mul, scaled Hadamard, hadamard3d, scalar division, mean over k=1..5, outer product, matrix-vector product, transpose, clamp, shape-mismatch refusal} x rank 1..4 (nested / optional-nested lists for add and scalar division) x extents 1..4 per axis x content classes (dyadic, O(1), mixed magnitudes 2^-20..2^20, signed zeros + subnormals, 1e18) x scalars). Oracle: scalar IEEE reference per element (bitwise for add/sub/mul/div/outer/transpose/clamp, 2 ulp of the exact product for Hadamard, summation bound for mean and dot), shape field unchanged and consistent with the data, mismatched operands (other extent / other rank / permuted extents / nested list with one differing member) must panic. Non-trivial: rank >= 2 with >= 2 axes > 1. Distinct = (operation, rank, extents, nesting, mismatch kind, k).".into()
